@@ -155,6 +155,7 @@ def run(ck):
         pending_act = None
         other_act = False
         stop_fed = set()
+        start_fed = set()
         ev_seen = {}
         enq_ids = []
         tx_ev = {}
@@ -180,6 +181,8 @@ def run(ck):
                 elif bytes.fromhex(t[2]) == apci.STARTDT_ACT and ci not in dirty:
                     pending_act = ci
                     other_act = False
+                if bytes.fromhex(t[2]) == apci.STARTDT_ACT:
+                    start_fed.add(ci)
                 if bytes.fromhex(t[2]) != apci.STARTDT_ACT:
                     stop_fed.add(ci)       # anything but STARTDT (STOPDT, frames that close) may end the started state on its own
             elif t[0] == "tick":
@@ -285,11 +288,16 @@ def run(ck):
                     pending_act = None
                 # connection-is-group mode: every connection is independent -- a started connection stays started unless it was
                 # itself sent something that ends that (STOPDT, a frame that closes it)
-                if mode == 1 and last_dump:
+                if mode in (1, 2) and last_dump and not dirty:
                     for c, (g, st) in d.items():
-                        if c in last_dump and last_dump[c][1] == 1 and st != 1 and c not in stop_fed and c not in dirty:
-                            bad.append(("not-independent", "connection c%d was started and is not any more although nothing was sent to it: in connection-is-group mode another connection's STARTDT must not touch it" % c))
+                        if c in last_dump and last_dump[c][1] == 1 and st != 1 and c not in stop_fed:
+                            if mode == 1:
+                                bad.append(("not-independent", "connection c%d was started and is not any more although nothing was sent to it: in connection-is-group mode another connection's STARTDT must not touch it" % c))
+                            elif not any(o != c and d.get(o, (None,))[0] == g for o in start_fed):
+                                bad.append(("not-independent", "connection c%d of group %d was started and is not any more although nothing was sent to it and no other connection of its group sent STARTDT act (STARTDT came from %s)" % (
+                                    c, g, ["c%d of group %s" % (o, d.get(o, ("?",))[0]) for o in sorted(start_fed)])))
                 stop_fed = set()
+                start_fed = set()
                 # oracle at every dump: at most one started connection per group
                 per = {}
                 for c, (g, st) in d.items():
